@@ -248,7 +248,7 @@ func runC19(c *run.Ctx) {
 		"subscribers) checked after every step: publish's count, the global delivery log in registration order, each message equal to the subscriber's own selection applied to the event (reference executor), " +
 		"failing subscribers removed and cleaned up exactly once, unsubscribed subscribers cleaned up exactly once and silent afterwards. Non-trivial = history has >=2 subscribers, a publish reaching >=2 of them and an " +
 		"unsubscribe or failure; distinct by history text"
-	n := c.N(1500, 80000)
+	n := c.N(3000, 80000)
 	c.MinNontriv = n / 10
 	ms := subModel()
 	topics := []string{"a", "b", "c", "*"}
